@@ -218,6 +218,13 @@ func runC12(r *ev.Run, thorough bool) {
 				run(kb, m)
 			}
 			if tab.KeyKind == "text" {
+				// a registered key with surrounding white space / NUL in the message object's key field (which is a Go
+				// string of any length): not a registered value, so the factory and a nil-body Encode must refuse it
+				for _, dec := range [][2]string{{"", " "}, {" ", ""}, {" ", " "}, {"\t", ""}, {"", "\n"}, {"", "\x00"}, {"0", ""}, {"", "0"}} {
+					kk := []byte(dec[0] + k + dec[1])
+					run(kk, "factory")
+					run(kk, "fill")
+				}
 				// pad variations of a registered key: must resolve by the trimmed text or fail
 				for _, var_ := range [][]byte{append([]byte(k[:2]), ' '), append([]byte{' '}, k[:2]...), {k[0], ' ', ' '}, append([]byte(k[:2]), 0), {' ', ' ', ' '}} {
 					run(var_, "decode")
